@@ -177,7 +177,8 @@ def gen(rng, knobs=None):
         for p in m["procs"]:
             if rng.random() < 0.3:
                 for q in range(rng.choice([1, 2])):
-                    ip = dict(name=f"{p['name']}_in{q}", calls=[c for c in cands if rng.random() < 0.25])
+                    ip = dict(name=f"{p['name']}_in{q}", calls=[c for c in cands if rng.random() < 0.25],
+                              meta=["graph: false"] if rng.random() < 0.12 else [])
                     if rng.random() < 0.6:
                         p["calls"].append(ip["name"])
                     if p["internals"] and rng.random() < 0.5:
@@ -204,6 +205,8 @@ def gen(rng, knobs=None):
                 t["generics"].append((f"{t['name']}_g", [b for b, _ in t["bound"][:2]]))
             elif len(t["bound"]) >= 1 and rng.random() < 0.3:
                 t["generics"].append((f"{t['name']}_g", [t["bound"][0][0]]))
+            if t["generics"] and rng.random() < 0.15:
+                t["gmeta"] = ["graph: false"]
         # calls through objects
         for p in m["procs"]:
             for t in m["types"]:
@@ -361,7 +364,7 @@ def declared(proj):
             for b, pn in t["bound"]:
                 ent(("bound", b, t["name"]))["bindings"] = [("proc", pn)]
             for g, bs in t["generics"]:
-                ent(("bound", g, t["name"]))["bindings"] = [("bound", b, t["name"]) for b in bs]
+                ent(("bound", g, t["name"]), t.get("gmeta", []))["bindings"] = [("bound", b, t["name"]) for b in bs]
         for g, ps in m["generics"]:
             ent(("iface", g))["modprocs"] = [("proc", pn) for pn in ps]
         for x in m["extifs"]:
@@ -376,7 +379,8 @@ def declared(proj):
             pe["calls"] = [call_ref(c, local, home, pused) for c in p["calls"]] + \
                           [("bound", b, tn) for tn, b in p["obj_calls"]]
             for ip in p["internals"]:
-                ent(("proc", ip["name"]))["calls"] = [call_ref(c, local, home, pused) for c in ip["calls"]]
+                ent(("proc", ip["name"]), ip.get("meta", []))["calls"] = \
+                    [call_ref(c, local, home, pused) for c in ip["calls"]]
     for s in subs.values():
         e = ent(("mod", s["name"]), s["meta"])
         e["uses"] = [mod_ref(x) for x in s["uses"]]
@@ -412,32 +416,6 @@ def declared(proj):
     return rel, nograph
 
 
-def known_defect_view(proj, rel):
-    """The declared relation as FORD is known to derive it (recorded findings, replayed on every run):
-       16  module-procedure-impl-edge: no interface -> implementation arrow when the implementation is
-           written `module procedure x`;
-       32  external-procedure-call-unresolved: a call of a top-level external procedure (also a recursive
-           one) is kept as a bare name.
-    Returns (adjusted relation, mask of the adjustments that changed something)."""
-    import copy
-    adj = copy.deepcopy(rel)
-    mask = 0
-    units = [u for f in proj["files"] for u in f]
-    extprocs = {u["name"] for u in units if u["kind"] == "extproc"}
-    for u in units:
-        if u["kind"] == "submodule" and u["impl_style"] == "procedure":
-            for x in u["impl"]:
-                if adj[("iface", x)]["modimpl"] is not None:
-                    adj[("iface", x)]["modimpl"] = None
-                    mask |= 16
-    for key, e in adj.items():
-        new = [("str", "proc", c[1]) if c[0] == "proc" and c[1] in extprocs else c for c in e["calls"]]
-        if new != e["calls"]:
-            e["calls"] = new
-            mask |= 32
-    return adj, mask
-
-
 def hash_name(n):
     return sum(map(ord, n))
 
@@ -465,6 +443,7 @@ def render_internal(ips, ind):
         out.append(f"{ind}contains")
         for ip in ips:
             out.append(f"{ind}  subroutine {ip['name']}()")
+            out += doc(ip.get("meta", []), ind + "    ")
             for c in ip["calls"]:
                 out.append(f"{ind}    call {c}()")
             out.append(f"{ind}  end subroutine {ip['name']}")
@@ -504,6 +483,7 @@ def render_unit(u):
                     o.append(f"    procedure :: {b} => {p}")
                 for g, bs in t["generics"]:
                     o.append(f"    generic :: {g} => " + ", ".join(bs))
+                    o += doc(t.get("gmeta", []), "      ")
             o.append(f"  end type {t['name']}")
         for g, ps in u["generics"]:
             o.append(f"  interface {g}")
